@@ -595,6 +595,13 @@ class G:
                 kk = r.randrange(4)
                 if kk == 0:      # different values that a wrapping comparison would call equal
                     (a, p), (b, q) = self.wrap_pair()
+                elif kk == 1 and r.random() < 0.5:
+                    # a coefficient at the i128 limit against an operand whose scale-up overflows: a comparison that clamps the
+                    # overflowing side to the limit would call them equal (values, ratios and hashes differ)
+                    p = r.randrange(1, 19); q = r.randrange(0, p)
+                    a = r.choice([MAX, MAX, -MAX, MAX - 1])
+                    b = r.choice([MAX, MAX, -MAX, MAX // 10 ** (p - q) + 1 + r.randrange(0, 10 ** 6), self.clamp(r.randrange(MAX // 10, MAX))])
+                    if r.random() < 0.5: (a, p), (b, q) = (b, q), (a, p)
                 elif kk == 1:    # arbitrary pair
                     (a, p), (b, q) = self.dec(), self.dec()
                 else:
@@ -1131,7 +1138,19 @@ class G:
         """a request (no mode token, tokens joined by `_`) whose result depends on the rounding mode in effect:
         every operation family that consults the thread's default mode, in each of its branches"""
         r = self.r
-        k = r.randrange(15)
+        k = r.randrange(17)
+        if k >= 15:
+            # 256-bit division whose divisor exceeds 2^126 and whose remainder is exactly 1 (or divisor - 1): under Up / Ceiling /
+            # 05Up the tiny excess decides the last digit, under the nearest modes it never does
+            y = 2 ** 126 + r.randrange(1, 2 ** 20) * 10 + r.choice([3, 5, 7, 9])      # odd and (2^126 ≡ 4 mod 5) not a multiple of 5: invertible modulo 10^pw
+            pw = r.randrange(1, 3)
+            rem = r.choice([1, 1, 1, y - 1])
+            qq = (-rem * pow(y, -1, 10 ** pw)) % 10 ** pw + 10 ** pw * r.randrange(0, 3)     # qq·y + rem ≡ 0 (mod 10^pw)
+            x = (qq * y + rem) // 10 ** pw
+            if x > MAX or x == 0:
+                x = (((-rem * pow(y, -1, 10 ** pw)) % 10 ** pw) * y + rem) // 10 ** pw
+            sgn = r.choice([1, 1, -1])
+            return f"divr_vv_{sgn * x}_0_{y}_0_{pw}"
         if k == 14:
             # a product that needs the 256-bit path and is an exact multiple of 10^shift: no mode may change it
             j1, j2 = r.randrange(10, 19), r.randrange(10, 19)
